@@ -25,7 +25,8 @@ CALL_UNITS = {
 
 
 class UnitCheck:
-    def __init__(self, fn, param_units, font_param='font'):
+    def __init__(self, fn, param_units, font_param='font', ret_unit=None):
+        self.ret_unit = ret_unit
         self.fn = fn
         self.param_units = param_units
         self.font_param = font_param
@@ -188,6 +189,13 @@ class UnitCheck:
             elif op == ',':
                 u = b
             val[i] = u
+            return
+        if k == 'ReturnStmt':
+            if self.ret_unit and c:
+                u = self._u(c[0], val)
+                self.nops += 1
+                if u in (DU, PX) and u != self.ret_unit:
+                    self._flag(e, 'a %s value is returned where the caller gets %s' % (u, self.ret_unit))
             return
         if k == 'ConditionalOperator':
             a, b = self._u(c[1], val), self._u(c[2], val)
